@@ -518,7 +518,7 @@ def check_faulted(sc, ref, res, fault, violate):
         if "merged" not in cap:
             violate("F1", dict(sig, what="success_without_merge"), "status 0 after fault %r but the library merge never returned" % (fault,))
             return "violation"
-        if not same_inputs(cap["inputs"], ref["captured"]["inputs"]):
+        if "inputs" in ref["captured"] and not same_inputs(cap["inputs"], ref["captured"]["inputs"]):
             violate("F1", dict(sig, what="inputs_differ"), "status 0 after fault %r but the notebooks handed to the merge differ from the files on disk" % (fault,))
             return "violation"
         if _has_conflict(cap["decisions"]):
@@ -540,7 +540,7 @@ def check_faulted(sc, ref, res, fault, violate):
                 return "violation"
         verified_complete = True
     elif st == 1 and res["normal_return"] and "merged" in cap and _has_conflict(cap["decisions"]):
-        if not same_inputs(cap["inputs"], ref["captured"]["inputs"]):
+        if "inputs" in ref["captured"] and not same_inputs(cap["inputs"], ref["captured"]["inputs"]):
             violate("F2", dict(sig, what="inputs_differ"), "finished with conflicts after fault %r but merged other inputs than the files on disk" % (fault,))
             return "violation"
         ok, why = _output_matches(sc, res)
